@@ -9,6 +9,7 @@ import (
 	"encoding/base64"
 	"encoding/json"
 	"fmt"
+	"io"
 	"net"
 	"os"
 	"os/exec"
@@ -434,6 +435,10 @@ func runClientScript(conf *CConf, script []SIn) *CObs {
 	if conf.Kind == "memtls" {
 		_, cc := testTLS()
 		cfg = &lime.TCPConfig{TLSConfig: cc}
+		if len(script)%2 == 0 {
+			// with envelope tracing switched on
+			cfg.TraceWriter = &discardTrace{w: io.Discard}
+		}
 	}
 	ct := lime.NewTCPTransportOverConn(cmem, false, cfg)
 	cc := lime.NewClientChannel(ct, 4)
